@@ -61,6 +61,8 @@ def main():
             meta = json.load(open(f"{VERIF}/seeded/{s}/meta.json"))
             if str(meta.get("status_after_repairs", "")).startswith("neutralised"):
                 res = "neutralised by a later fix: commit (see meta.json)"
+            elif str(meta.get("status_after_repairs", "")).startswith("reclassified"):
+                res = "reclassified: outside the statements (see meta.json and Corrections)"
             elif not d.get("applies"):
                 res = "patch no longer applies"
             else:
